@@ -179,3 +179,36 @@ Proof.
     rewrite forallb_forall in F. specialize (F _ H). discriminate.
   - rewrite P3. split; [exact P1|]. split; [exact P2|]. split; [discriminate | unfold sec; lia].
 Qed.
+
+(** ** 4. the documented race after a crash (filestorage.go, comment above FileStorage and in
+    the stale branch of Lock: "locking becomes imperfect if lock files are stale")
+
+    The holder (thread 0, process 0) is killed.  10 s later two waiters of different
+    processes both read the dead file and judge it stale.  Waiter 1 removes it, creates its
+    own lock file and holds.  Waiter 2's os.Remove - of the NAME - comes only now: it
+    removes waiter 1's live file, creates its own and holds too.  The code is the repaired
+    one; every heartbeat is on time.  Mutual exclusion among live holders is lost after a
+    recovery; it needs a dead holder first ([stale_removal_needs_dead_owner] in Proofs). *)
+Definition stale_race_run : list label :=
+  [LStart 0 0; LTryCreate 0; LWriteMeta 0; LKill 0;
+   LStart 1 1; LStart 2 2; LTick (10 * sec + 1);
+   LTryCreate 1; LOpenRead 1; LTryCreate 2; LOpenRead 2;
+   LRemove 1; LTryCreate 1; LWriteMeta 1;
+   LRemove 2; LTryCreate 2; LTick 1; LWriteMeta 2]%nat.
+
+Lemma stale_race_proj :
+  match run cfg_resets init stale_race_run with
+  | Some s => cs s 0%nat = CDead /\ cs s 1%nat = CHolding 1%nat /\ cs s 2%nat = CHolding 2%nat
+  | None => False
+  end.
+Proof. vm_compute. repeat split; reflexivity. Qed.
+
+Theorem mutex_after_crash_refuted_stale_race :
+  exists s i1 i2, run cfg_resets init stale_race_run = Some s /\
+    cs s 0%nat = CDead /\ cs s 1%nat = CHolding i1 /\ cs s 2%nat = CHolding i2 /\ i1 <> i2.
+Proof.
+  pose proof stale_race_proj as P.
+  destruct (run cfg_resets init stale_race_run) as [s|]; [|contradiction].
+  destruct P as (P0 & P1 & P2).
+  exists s, 1%nat, 2%nat. split; [reflexivity|]. split; [exact P0|]. split; [exact P1|]. split; [exact P2 | discriminate].
+Qed.
